@@ -40,10 +40,12 @@ type DialCtl struct {
 	closedAt   int64         // unix nanos when the harness saw the closer return (0 = not yet)
 	afterClose int32         // dials that began after closedAt
 	held       int32
+	OnBegin    func(k int) // called (synchronously) when the k-th dial (0 = initial) is about to start
 }
 
 func (d *DialCtl) wrap(inner func() (*websocket.Conn, error)) func() (*websocket.Conn, error) {
 	return func() (*websocket.Conn, error) {
+		now := time.Now() // the dial begins here: the library has called its connection factory
 		d.mu.Lock()
 		first := len(d.begins) == 0
 		hold := d.hold
@@ -54,7 +56,12 @@ func (d *DialCtl) wrap(inner func() (*websocket.Conn, error)) func() (*websocket
 			atomic.AddInt32(&d.held, -1)
 		}
 		d.mu.Lock()
-		now := time.Now()
+		onBegin, k := d.OnBegin, len(d.begins)
+		d.mu.Unlock()
+		if onBegin != nil {
+			onBegin(k)
+		}
+		d.mu.Lock()
 		d.begins = append(d.begins, now)
 		if c := atomic.LoadInt64(&d.closedAt); c != 0 && now.UnixNano() > c {
 			atomic.AddInt32(&d.afterClose, 1)
